@@ -228,6 +228,12 @@ func vSimulate(c *dialCase) dialExpect {
 		if o == 0 {
 			o = 'N'
 		}
+		if o >= 'a' && o <= 'z' {
+			// a task that answers the cancelation with an error of its own: what Dial
+			// then returns is not laid down; the clean-up rules (C11) still apply
+			e.dontcare = "the task returned an error of its own when it was cancelled"
+			return e
+		}
 		if isCancelled() {
 			// the connection was established while the cancelation was already
 			// pending: the task sees it at once; the connection is still cleaned up
@@ -383,6 +389,15 @@ func vRunDial(t *testing.T, r0 *vlib.Run, c *dialCase) {
 					var err error
 					if o == 'C' {
 						<-ctx.Done()
+					} else if o >= 'a' && o <= 'z' {
+						// the task ends on cancelation, with an error: the context's own,
+						// or the failure it ran into while it was being torn down
+						<-ctx.Done()
+						if o == 'c' {
+							err = fmt.Errorf("failed to run: %w", ctx.Err())
+						} else {
+							err = vTaskErr(o - 'a' + 'A')
+						}
 					} else {
 						select {
 						case <-ctx.Done():
@@ -574,7 +589,7 @@ func TestVerifDial(t *testing.T) {
 			return
 		}
 		r.Begin(c.ID)
-		if strings.ContainsAny(c.Dials, "lspx") || strings.ContainsAny(c.Tasks, "LSPTX") || strings.ContainsAny(c.GetF+c.SetF+c.RestF, "pex") {
+		if strings.ContainsAny(c.Dials, "lspx") || strings.ContainsAny(c.Tasks, "LSPTXclspxt") || strings.ContainsAny(c.GetF+c.SetF+c.RestF, "pex") {
 			r.Nontrivial(c.ID)
 		}
 		vRunDial(t, r, c)
@@ -669,6 +684,23 @@ func TestVerifDial(t *testing.T) {
 								run(&c2)
 							}
 						}
+					}
+				}
+			}
+		}
+	}
+	// tasks that answer the cancelation with an error (a transmit failure or link
+	// change racing the shutdown, or the context's own error): whatever Dial then
+	// returns, the connection in use is cleaned up exactly once and autoconf restored
+	for _, pre := range [][2]string{{"", ""}, {"o", "L"}, {"lo", "S"}, {"oo", "LL"}} {
+		for _, last := range "clspxt" {
+			for _, ca := range []time.Duration{300 * time.Millisecond, 1500 * time.Millisecond, 4200 * time.Millisecond} {
+				for _, mode := range []DialerMode{Advertise, Monitor} {
+					for _, a0 := range []bool{false, true} {
+						nT := time.Duration(len(pre[1])) * vTaskLen
+						c := &dialCase{ID: fmt.Sprintf("errorcancel/%s/%s%c/%v/m%d/%v", pre[0], pre[1], last, ca, mode, a0), Dials: pre[0], Tasks: pre[1] + string(last),
+							CancelAt: nT + 3*time.Second + ca, Mode: mode, Auto0: a0}
+						run(c)
 					}
 				}
 			}
